@@ -24,17 +24,32 @@ def env_offline():
 
 
 def build_tool(quiet=True):
-    """(Re)builds casm-tool against /repo's current working tree (path dependencies)."""
+    """(Re)builds casm-tool against the repository's current working tree (path dependencies).
+    With VERIF_REPO pointing somewhere else than /repo (e.g. the repository snapshot of a
+    `vp run --with-repo`), a copy of the crate with rewritten path dependencies is built instead,
+    so that such a run is independent of later edits to /repo."""
+    global TOOL
     t0 = time.time()
+    import shutil
+    tool_dir, target = TOOL_DIR, os.path.join(BUILD, "casm_tool")
+    if os.path.realpath(REPO) != "/repo":
+        tag = sha(os.path.realpath(REPO))
+        tool_dir = os.path.join(BUILD, f"casm_tool_src_{tag}")
+        target = os.path.join(BUILD, f"casm_tool_{tag}")
+        os.makedirs(os.path.join(tool_dir, "src"), exist_ok=True)
+        shutil.copy(os.path.join(TOOL_DIR, "src", "main.rs"), os.path.join(tool_dir, "src", "main.rs"))
+        toml = open(os.path.join(TOOL_DIR, "Cargo.toml")).read().replace(
+            '"/repo/', '"' + os.path.realpath(REPO) + "/")
+        with open(os.path.join(tool_dir, "Cargo.toml"), "w") as f:
+            f.write(toml)
+        TOOL = os.path.join(target, "release", "casm-tool")
     lock_src = os.path.join(REPO, "Cargo.lock")
-    lock_dst = os.path.join(TOOL_DIR, "Cargo.lock")
+    lock_dst = os.path.join(tool_dir, "Cargo.lock")
     if not os.path.exists(lock_dst):
-        import shutil
         shutil.copy(lock_src, lock_dst)
     r = subprocess.run(
-        ["cargo", "build", "--release", "--offline", "--target-dir",
-         os.path.join(BUILD, "casm_tool")],
-        cwd=TOOL_DIR, env=env_offline(), capture_output=True, text=True)
+        ["cargo", "build", "--release", "--offline", "--target-dir", target],
+        cwd=tool_dir, env=env_offline(), capture_output=True, text=True)
     if r.returncode != 0:
         sys.stderr.write(r.stdout[-4000:] + r.stderr[-8000:])
         raise SystemExit(2)
